@@ -23,6 +23,7 @@ package main
 import (
 	"fmt"
 	"go/token"
+	"go/types"
 	"math"
 	"math/big"
 	"regexp"
@@ -338,6 +339,7 @@ func checkC18(ctx *Ctx, r *Report, tier string) {
 	r.floor("H4", 4)
 	screwSpec(ctx, r, "H5")
 	checkISOMating(ctx, r)
+	checkRowsReadOnly(ctx, r)
 	r.floor("H5", 2)
 }
 
@@ -430,6 +432,48 @@ func evalFloat(v Val, env map[string]float64) (float64, bool) {
 		return 1 / x, ok && x != 0
 	case "conv":
 		return evalFloat(t.Args[0], env)
+	case "ite":
+		c, ok := evalFloat(t.Args[0], env)
+		if !ok {
+			return 0, false
+		}
+		if c != 0 {
+			return evalFloat(t.Args[1], env)
+		}
+		return evalFloat(t.Args[2], env)
+	case "not":
+		c, ok := evalFloat(t.Args[0], env)
+		if c != 0 {
+			return 0, ok
+		}
+		return 1, ok
+	case "cmp":
+		x, ok1 := evalFloat(t.Args[0], env)
+		y, ok2 := evalFloat(t.Args[1], env)
+		if !ok1 || !ok2 {
+			return 0, false
+		}
+		var b bool
+		switch t.S {
+		case "<":
+			b = x < y
+		case "<=":
+			b = x <= y
+		case ">":
+			b = x > y
+		case ">=":
+			b = x >= y
+		case "==":
+			b = x == y
+		case "!=":
+			b = x != y
+		default:
+			return 0, false
+		}
+		if b {
+			return 1, true
+		}
+		return 0, true
 	case "call":
 		if len(t.Args) == 2 {
 			x, ok1 := evalFloat(t.Args[0], env)
@@ -597,4 +641,41 @@ func checkISOMating(ctx *Ctx, r *Report) {
 	}
 	r.check("H6", key, fn.Pos(), ok, "bolt material never overlaps nut material at zero tolerance (profiles from the source, filleted as the library does);"+detail)
 	r.floor("H6", 1)
+}
+
+// checkRowsReadOnly (H7): ThreadLookup hands out the database's own records (and ToMillimetre
+// returns its receiver for a row already in mm), so any field written through such a pointer
+// changes what the designation means for the rest of the process. Who-may-write rule over every
+// function of the module: a store into a field of a ThreadParameters record is made only through
+// a record the same function has just allocated (the Add helpers' and the conversion's literals).
+func checkRowsReadOnly(ctx *Ctx, r *Report) {
+	n := 0
+	for _, fn := range ctx.srcFuncs("sdf", "obj", "render", "render/dc") {
+		if len(fn.Blocks) == 0 {
+			continue
+		}
+		k := 0
+		allInstrs(fn, func(_ *ssa.BasicBlock, ins ssa.Instruction) {
+			st, ok := ins.(*ssa.Store)
+			if !ok {
+				return
+			}
+			fa, ok := st.Addr.(*ssa.FieldAddr)
+			if !ok {
+				return
+			}
+			nt, ok := derefType(fa.X.Type()).(*types.Named)
+			if !ok || nt.Obj().Name() != "ThreadParameters" {
+				return
+			}
+			_, fresh := fa.X.(*ssa.Alloc)
+			k++
+			n++
+			stt := nt.Underlying().(*types.Struct)
+			r.check("H7", fmt.Sprintf("%s|store#%d-%s-into-a-record-it-allocated", shortFn(fn), k, stt.Field(fa.Field).Name()), st.Pos(), fresh,
+				"thread records reached through ThreadLookup / ToMillimetre are the shared database rows and must not be written")
+		})
+	}
+	r.Counts["thread_record_stores"] = n
+	r.floor("H7", 8)
 }
